@@ -130,6 +130,30 @@ CHECKS.update({
                 design="6/C16", note=BENCH_NOTE),
 })
 
+CHECKS.update({
+    "C12": dict(engine="queue", spec="MpscQueue.tla (Bounded, NoCellRace, NoUnreachable, PoppedOnce, PerProducerFifo, NoSkip, "
+                                    "LenWhenQuiescent, ResultsOk), MpscQueue_Trace.tla",
+                text="The queue's push/pop/release/close/len are transcribed at atomic-operation granularity with the "
+                     "code's own position/stamp arithmetic; TLC explores every interleaving for capacities 1-3 and 2-3 "
+                     "producers; every sequential operation history up to the bound is replayed on the real queue (V1 "
+                     "facade) and each result compared; executions of real producer/consumer threads are logged as "
+                     "start/end events and must be linearisable with respect to the atomic-step specification (TLC "
+                     "searches the interleaving).",
+                design="6/C12", note="Trusted: TLC/SANY, harness. Sequentially consistent interleavings only: weaker memory "
+                                     "orderings are not decided. The wake-up protocol of Sender::send/Receiver::recv is "
+                                     "covered end to end by the Bench checks (lost wake-up = stall), not at atomic level."),
+    "C19": dict(engine="simcore", spec="SimCore_Trace.tla (TDrop: balanced release of models, messages, handler futures; "
+                                      "threads joined; no model code afterwards), SimCore.tla for the prefixes",
+                text="The simulation, with its scheduler handle, addresses, event sources and keys, is dropped after every "
+                     "prefix of the TLC-generated driver sequences (idle, pending scheduled actions, after each kind of "
+                     "failure), after random prefixes and after a failure with senders suspended on capacity-1 mailboxes, "
+                     "on 1-16 threads with a delay sweep over the pool hook points. Drop-counting tokens in every model, "
+                     "message and handler future and the process's thread count are recorded in a `drop` event that must "
+                     "satisfy TDrop; a drop that does not return is caught by a watchdog.",
+                design="6/C19", note=SIMCORE_NOTE + " Release is observed through tokens and thread counts, not by a "
+                                                    "memory checker."),
+})
+
 PENDING = {}
 
 TITLES = {}
@@ -175,6 +199,11 @@ def main():
                                     "cargo test --workspace --no-fail-fast --offline",
                    source_commits=hook_commits, add_only=True),
         engines=[
+            dict(name="queue", path="/verif/specs/MpscQueue.tla /verif/specs/MC_MpscQueue.tla /verif/specs/MpscQueue_Trace.tla "
+                                    "/verif/tools/check_queue.py /verif/harness/src/queue.rs",
+                 serves_properties=["C12"],
+                 kind_free_text="TLC interleaving exploration + sequential history replay + linearisability checking of "
+                                "real-thread executions by trace validation"),
             dict(name="seqds", path="/verif/specs/Sinks.tla /verif/specs/PQ.tla /verif/specs/PQ_Trace.tla "
                                     "/verif/tools/check_seqds.py /verif/harness/src/seqds.rs",
                  serves_properties=["C17", "C20"],
@@ -186,7 +215,7 @@ def main():
                                 "executor (pick/yield hooks) + trace validation"),
             dict(name="simcore", path="/verif/specs/SimCore.tla /verif/specs/SimCore_Trace.tla /verif/tools/check_simcore.py "
                                       "/verif/harness/src/simcore.rs",
-                 serves_properties=["C01", "C07", "C08", "C09", "C10", "C11", "C18"],
+                 serves_properties=["C01", "C07", "C08", "C09", "C10", "C11", "C18", "C19"],
                  kind_free_text="TLC exhaustive model checking + behaviour replay + trace validation"),
         ],
         checks=checks,
